@@ -199,3 +199,188 @@ def check(pid, tier, replay=None):
     if pid not in CHECKS:
         raise Broken("no check for " + pid)
     return CHECKS[pid](pid, tier)
+
+
+# ---- C17 --------------------------------------------------------------------------------------------
+
+def rt_cfg(kind, repl, mut="none", maxops=3, view=True, emit=False, props=True):
+    s = "INIT Init\nNEXT Next\n" + ("VIEW View\n" if view else "")
+    s += 'CONSTANTS\n Objs = {"p","q"}\n MaxOps = %d\n Kind = "%s"\n Repl = "%s"\n Mut = "%s"\n' % (maxops, kind, repl, mut)
+    if props:
+        s += "PROPERTIES PropContract\n"
+    if emit:
+        s += "CONSTRAINT EmitScript\n"
+    return s
+
+
+def rt_steps(hist):
+    return [{"kind": h["kind"], "op": h["op"], "objs": sorted(h["objs"]), "planF": h["planF"], "planS": h["planS"], "f0": sorted(h["f0"]), "s0": sorted(h["s0"]),
+             "res": h["res"], "code": h["code"], "f1": sorted(h["f1"]), "s1": sorted(h["s1"]), "missing": sorted(h["missing"])} for h in hist]
+
+
+def py_rank():
+    """Order of the objects p, q, r inside a digest.Set (sorted by the packed digest string: function, hash, ...)."""
+    import hashlib
+    hs = sorted((hashlib.sha256(b"object-" + n.encode()).hexdigest(), n) for n in "pqr")
+    return {n: i for i, (_, n) in enumerate(hs)}
+
+
+def ex_cfg(policy, mut="none", size=2, duration=2, maxops=3, maxtime=5, view=True, emit=False, props=True):
+    s = "INIT Init\nNEXT Next\n" + ("VIEW View\n" if view else "")
+    s += 'CONSTANTS\n Objs = {"p","q","r"}\n Size = %d\n Duration = %d\n MaxOps = %d\n MaxTime = %d\n Policy = "%s"\n Mut = "%s"\n Rank <- MCRank\n' % (
+        size, duration, maxops, maxtime, policy, mut)
+    if props:
+        s += "PROPERTIES PropNeverStale\nINVARIANTS Bounded\n"
+    if emit:
+        s += "CONSTRAINT EmitScript\n"
+    return s
+
+
+def ex_extra():
+    rk = py_rank()
+    return "MCRank(x) == CASE %s\n" % " [] ".join('x = "%s" -> %d' % (n, i) for n, i in sorted(rk.items()))
+
+
+def ex_script(hist, sid, policy, size, duration):
+    steps = []
+    for h in hist[1:]:
+        st = {"op": h["op"], "t": h.get("t", 0)}
+        if h["op"] == "fm":
+            st.update({"objs": sorted(h["objs"]), "reportedMissing": sorted(h["reportedMissing"]), "askedBackend": sorted(h["askedBackend"])})
+        if h["op"] == "lose":
+            st["obj"] = h["obj"]
+        steps.append(st)
+    return {"id": sid, "policy": policy, "size": size, "duration": duration, "backend0": sorted(hist[0]["objs"]), "steps": steps}
+
+
+def repl_cfg(mut="none", callers=4, limit=2, maxfail=2, live=True):
+    s = "SPECIFICATION %s\n" % ("FairSpec" if live else "Spec")
+    s += 'CONSTANTS\n Callers = {%s}\n Objs = {"p","q"}\n Wants <- MCWants\n MaxFail = %d\n Limit = %d\n Mut = "%s"\n' % (
+        ",".join('"c%d"' % i for i in range(1, callers + 1)), maxfail, limit, mut)
+    s += "INVARIANTS Bounds SuccessConfirmed NoStuck\nCHECK_DEADLOCK FALSE\n"
+    if live:
+        s += "PROPERTIES Terminates\n"
+    return s
+
+
+REPL_EXTRA = 'MCWants(c) == IF c \\in {"c1", "c2", "c3"} THEN "p" ELSE "q"\n'
+
+
+def check_c17(pid, tier):
+    t0 = time.time()
+    sd = vlib.seed()
+    binary = vlib.go_build_test("comp")
+    work = vlib.scratch("c17")
+    quick = tier == "quick"
+    states = trans = 0
+    details = {"read_through": [], "replicators": [], "existence_cache": [], "mutants_killed": {}}
+    # (a) read caching / fallback
+    scripts = []
+    for kind in ("caching", "fallback"):
+        for repl in ("local", "noop"):
+            r = vlib.run_tlc("ReadThrough", rt_cfg(kind, repl, maxops=3 if quick else 4), timeout=3000)
+            vlib.require_model_ok(r, "ReadThrough %s/%s" % (kind, repl))
+            states += r.distinct
+            trans += r.generated
+            details["read_through"].append({"kind": kind, "replicator": repl, "distinct_states": r.distinct, "transitions": r.generated})
+            hists = []
+            rs = vlib.run_tlc("ReadThrough", rt_cfg(kind, repl, maxops=1 if quick else 2, view=False, emit=True, props=False),
+                              marker_sink=lambda m, o: hists.append(o), timeout=3000)
+            if not rs.ok:
+                raise Broken("ReadThrough enumeration failed: %s %s" % (rs.violated, rs.error))
+            rs = vlib.run_tlc("ReadThrough", rt_cfg(kind, repl, maxops=5, view=False, emit=True, props=False), mode="simulate", sim_num=150 if quick else 3000,
+                              sim_depth=8, sim_seed=sd * 17 + len(kind) + len(repl), workers=1, marker_sink=lambda m, o: hists.append(o), timeout=3000)
+            if not rs.ok:
+                raise Broken("ReadThrough simulation failed: %s %s" % (rs.violated, rs.error))
+            for n, h in enumerate(hists):
+                scripts.append({"id": "%s/%s/%d" % (kind, repl, n), "kind": kind, "repl": repl, "steps": rt_steps(h)})
+    for kind, mut in [("caching", "no_fallback"), ("caching", "no_copy"), ("caching", "put_to_fast"), ("fallback", "missing_from_primary"), ("fallback", "no_fallback")]:
+        rm = vlib.run_tlc("ReadThrough", rt_cfg(kind, "local", mut), dump_trace=True, timeout=600)
+        if not rm.violated:
+            raise Broken("ReadThrough mutant %s not killed" % mut)
+        details["mutants_killed"]["ReadThrough/%s/%s" % (kind, mut)] = rm.violated
+        st = vlib.cex_states(rm)
+        if st:
+            steps = rt_steps(st[-1]["hist"])
+            for s in steps:
+                s["res"] = ""
+            scripts.append({"id": "killer/%s/%s" % (kind, mut), "kind": kind, "repl": "local", "steps": steps})
+    sp = os.path.join(work, "rt_scripts.ndjson")
+    vlib.write_ndjson(sp, scripts)
+    rc, out = vlib.run_harness(binary, "TestReadThrough", {"COMP_SCRIPTS": sp, "COMP_OUT": work}, timeout=3000)
+    if rc != 0:
+        raise Broken("read-through harness failed:\n" + out[-3000:])
+    rt_summ = json.load(open(os.path.join(work, "readthrough_summary.json")))
+    # (b) replicator decorators: protocol model, then seeded schedules on the real decorators
+    for c in ([dict(callers=3, limit=1, maxfail=1)] if quick else [dict(callers=4, limit=2, maxfail=2), dict(callers=4, limit=1, maxfail=2)]):
+        r = vlib.run_tlc("Replicators", repl_cfg(**c), extra=REPL_EXTRA, timeout=3000)
+        vlib.require_model_ok(r, "Replicators %s" % c)
+        states += r.distinct
+        trans += r.generated
+        details["replicators"].append({"constants": c, "distinct_states": r.distinct, "transitions": r.generated,
+                                       "properties": ["Bounds", "SuccessConfirmed", "NoStuck", "Terminates (under weak fairness)"]})
+    for mut in ["skip_after_failed_leader", "success_before_copy", "no_delete_on_failure"]:
+        rm = vlib.run_tlc("Replicators", repl_cfg(mut, callers=3, limit=2, maxfail=1, live=False), extra=REPL_EXTRA, timeout=600)
+        if not rm.violated:
+            raise Broken("Replicators mutant %s not killed" % mut)
+        details["mutants_killed"]["Replicators/" + mut] = rm.violated
+    rc, out = vlib.run_harness(binary, "TestReplicators", {"COMP_OUT": work, "VERIF_SEED": sd, "COMP_RUNS": 400 if quick else 20000}, timeout=3400)
+    if rc != 0:
+        raise Broken("replicator harness failed:\n" + out[-3000:])
+    # (c) existence cache
+    ex_scripts = []
+    for policy in ("LRU", "FIFO"):
+        for size, duration in ([(2, 2)] if quick else [(1, 1), (2, 2), (3, 2)]):
+            mo = 3 if quick else 4
+            r = vlib.run_tlc("ExistenceCache", ex_cfg(policy, size=size, duration=duration, maxops=mo), extra=ex_extra(), timeout=3000)
+            vlib.require_model_ok(r, "ExistenceCache %s" % policy)
+            states += r.distinct
+            trans += r.generated
+            details["existence_cache"].append({"policy": policy, "size": size, "duration": duration, "max_fm": mo, "distinct_states": r.distinct, "transitions": r.generated})
+            hists = []
+            rs = vlib.run_tlc("ExistenceCache", ex_cfg(policy, size=size, duration=duration, maxops=6, maxtime=9, view=False, emit=True, props=False), extra=ex_extra(),
+                              mode="simulate", sim_num=300 if quick else 5000, sim_depth=16, sim_seed=sd * 19 + size, workers=1,
+                              marker_sink=lambda m, o: hists.append(o), timeout=3000)
+            if not rs.ok:
+                raise Broken("ExistenceCache simulation failed: %s %s" % (rs.violated, rs.error))
+            for n, h in enumerate(hists):
+                ex_scripts.append(ex_script(h, "%s/%d/%d/%d" % (policy, size, duration, n), policy, size, duration))
+    for mut in ["compare_reversed", "cache_missing"]:
+        rm = vlib.run_tlc("ExistenceCache", ex_cfg("LRU", mut), extra=ex_extra(), dump_trace=True, timeout=600)
+        if not rm.violated:
+            raise Broken("ExistenceCache mutant %s not killed" % mut)
+        details["mutants_killed"]["ExistenceCache/" + mut] = rm.violated
+        st = vlib.cex_states(rm)
+        if st:
+            sc = ex_script(st[-1]["hist"], "killer/" + mut, "LRU", 2, 2)
+            sc["killer"] = True   # its expectations are the mutant's
+            ex_scripts.append(sc)
+    ep = os.path.join(work, "ex_scripts.ndjson")
+    vlib.write_ndjson(ep, ex_scripts)
+    rc, out = vlib.run_harness(binary, "TestExistence", {"COMP_SCRIPTS": ep, "COMP_OUT": work}, timeout=3000)
+    if rc != 0:
+        raise Broken("existence harness failed:\n" + out[-3000:])
+    ex_summ = json.load(open(os.path.join(work, "existence_summary.json")))
+    allp = os.path.join(work, "all.ndjson")
+    with open(allp, "w") as fh:
+        for f in ("readthrough.ndjson", "replicators.ndjson", "existence.ndjson"):
+            fh.write(open(os.path.join(work, f)).read())
+    n_events, rejects, vstates = validate_obs("ReadThroughContractTrace", allp)
+    violations = report(pid, sd, rejects)
+    for name, summ in (("read-through", rt_summ), ("existence cache", ex_summ)):
+        if summ["drift"]:
+            log("DRIFT property=%s (%s) %d of %d operations deviate from the design: %s" % (pid, name, summ["drift"], summ["compared"], json.dumps(summ.get("first_drifts"))[:1500]))
+    cov = {"states": states, "transitions": trans, "traces_validated_against_impl": n_events,
+           "scripts": {"read_through": len(scripts), "existence_cache": len(ex_scripts)},
+           "design_conformance": {"read_through": {"operations_compared": rt_summ["compared"], "drifted": rt_summ["drift"]},
+                                  "existence_cache": {"operations_compared": ex_summ["compared"], "drifted": ex_summ["drift"]}},
+           "model": details, "trace_validator_states": vstates, "samples": scripts[:1] + ex_scripts[:1]}
+    vlib.write_evidence(pid, tier, "model_checking", cov, time.time() - t0, violations,
+                        ["back ends are model back ends (sets of objects with a per-call fault plan)",
+                         "replicator decorators: 2-4 callers over 3 objects, seeded cooperative schedules plus free-running runs; the deduplication protocol itself is checked exhaustively in Replicators.tla for 3-4 callers",
+                         "the queued replicator's success is backed by its existence cache, whose staleness bound is checked separately",
+                         "existence cache: LRU and FIFO scripts are compared against the design; the same scripts run under random replacement are checked against the contract only"])
+    return 1 if violations else 0
+
+
+CHECKS["C17"] = check_c17
